@@ -255,6 +255,17 @@ func main() {
 	cmd.Dir = b.Dir
 	cmd.Env = b.env
 	if out, err := cmd.CombinedOutput(); err != nil {
+		// errors located only in the export file or the driver mean that the harness no longer fits the emitted
+		// code (e.g. a renamed function): that is not a verdict about the emitted package
+		onlyHarness := true
+		for _, l := range strings.Split(string(out), "\n") {
+			if strings.Contains(l, ".go:") && !strings.Contains(l, "verif_export.go:") && !strings.Contains(l, "main.go:") {
+				onlyHarness = false
+			}
+		}
+		if onlyHarness {
+			return "", fmt.Errorf("%w: %v\n%s", ErrHarness, err, out)
+		}
 		return "", fmt.Errorf("%v\n%s", err, out)
 	}
 	return bin, nil
@@ -270,6 +281,9 @@ func (b *Batch) Vet() error {
 	}
 	return nil
 }
+
+// ErrHarness reports that the harness's own export file or driver does not compile against the emitted code.
+var ErrHarness = fmt.Errorf("harness does not fit the emitted package")
 
 // ErrTimeout reports that the driver produced no result within its (generous) time limit.
 var ErrTimeout = fmt.Errorf("the driver linked with the emitted packages did not finish within its time limit")
